@@ -17,7 +17,7 @@ def main():
     run = Run("C07", level="proof")
     quick = run.tier != "thorough"
     rng = np.random.default_rng(run.seed)
-    l1 = run.l1(["RenoVerif/Props/C07.lean"])
+    l1 = run.l1(["RenoVerif/Props/C07.lean", "RenoVerif/Props/C07Rdm.lean"])
     if not l1["build_ok"]:
         raise Infra("hand-written Lean library failed to build/audit: " + str(l1.get("bad")) + l1.get("log", "")[-800:])
     from renormalizer.model import Model, Op
